@@ -11,6 +11,7 @@ history of length <= 5 over a reduced alphabet on a 3-node graph with two iterat
 from __future__ import annotations
 
 import json
+import random
 
 import onnx_ir  # noqa: F401 - imported at module top so that VF_REPO decides which tree runs
 
@@ -22,7 +23,8 @@ ID = "C11"
 LEVEL = "exploration"
 RULE = (
     "case = setup (Graph or Function, 0-8 top-level nodes, optional second graph, optional GRAPH/GRAPHS "
-    "subgraphs to depth 2, data dependencies, 1-4 iterators of kinds iter/reversed/recursive fwd/recursive rev) "
+    "subgraphs to depth 2, data dependencies, optional graph inputs/initializers/outputs and second node outputs, "
+    "1-4 iterators of kinds iter/reversed/recursive fwd/recursive rev) "
     "+ a generated history of 5-60 steps whose edit arguments are chosen relative to the iterators' cursors "
     "(cursor node, its neighbours, visited/unvisited side, other iterator's cursor); non-trivial iff some edit "
     "hit a graph while an iterator was in flight on it and that iterator was stepped afterwards; distinct by "
@@ -39,6 +41,9 @@ ASSUMPTIONS = [
     "'untouched': iterators parked on such a node are judged by L1 and F only, their L2 comparison is report-only",
     "a hang inside one call is diagnosed structurally (sys.monitoring line counter on the linked-list/traversal iterator code: "
     "more loop lines than link boxes ever created); without that counter a hang becomes a shard timeout = inconclusive",
+    "membership (`x in graph`, `x in function`) is True exactly for the node objects of the reference sequence: every other "
+    "operand (values attached to the graph or produced by its nodes, nodes of nested subgraphs, the owner node, the graph or "
+    "function object, a detached node or a string carrying a member's name, None, ints, tuples) is not in it and must not raise",
     "edits are valid calls only (anchor is a member, new nodes are detached or members of the same graph); rejected edits are C06's subject",
 ]
 
@@ -127,10 +132,29 @@ def gen_setup(rng) -> dict:
         if kind.startswith("rec") and attrs and rng.random() < 0.15:
             spec["nodesc"] = [int(rng.choice(sorted(attrs)))]
         iters.append(spec)
-    return {
+    setup = {
         "main": main, "n": n, "gdepth": gdepth, "height": height, "attrs": attrs,
         "init": init, "inputs": inputs, "iters": iters,
     }
+    setup.update(gen_io(setup))
+    return setup
+
+
+def gen_io(setup: dict) -> dict:
+    """Graph inputs / initializers / outputs and second node outputs: values that are attached to a
+    graph without being part of its node sequence.  Drawn from a generator derived from the setup so
+    that the history generator's random stream is the same with and without this dimension."""
+    r = random.Random("c11-io|" + stable_hash(setup))
+    io = {}
+    for gid, members in enumerate(setup["init"]):
+        if r.random() < 0.6:
+            io[str(gid)] = {
+                "in": r.choice([0, 1, 1, 2]),
+                "init": r.choice([0, 0, 1, 2]),
+                "out": sorted(r.sample(members, min(len(members), r.choice([0, 1, 1, 2])))),
+                "thru": int(r.random() < 0.2),
+            }
+    return {"io": io, "nout": [r.choice([1, 1, 1, 2]) for _ in range(setup["n"])]}
 
 
 # =============================================================================================
@@ -282,6 +306,13 @@ def shrink(setup: dict, ops: list, v: Violation):
     s2 = dict(setup, inputs=[[] for _ in setup["inputs"]])
     if _same(execute(s2, ops)[0], v):
         setup = s2
+    # drop graph inputs/initializers/outputs and extra node outputs if irrelevant
+    if setup.get("io") or setup.get("nout"):
+        for s2 in ({k: x for k, x in setup.items() if k not in ("io", "nout")},
+                   dict(setup, io={}), {k: x for k, x in setup.items() if k != "nout"}):
+            if _same(execute(s2, ops)[0], v):
+                setup = s2
+                break
     v2, run2 = execute(setup, ops)
     return setup, ops, v2, run2
 
@@ -290,7 +321,8 @@ def _witness_text(setup: dict, ops: list, run) -> str:
     init = {f"g{g}": m for g, m in enumerate(setup["init"]) if m or g == 0}
     iters = [f"{s['kind']}@g{s['g']}" for s in setup["iters"]]
     trace = " ".join(run.trace[-12:]) if run is not None else ""
-    return (f"witness: main={setup['main']} init={init} attrs={setup.get('attrs') or {}} iterators={iters} "
+    io = f" io={setup['io']}" if setup.get("io") else ""
+    return (f"witness: main={setup['main']} init={init} attrs={setup.get('attrs') or {}}{io} iterators={iters} "
             f"ops={json.dumps(ops)} real-yields: {trace}")
 
 
@@ -488,6 +520,11 @@ def plan(tier: str) -> dict:
                 "ins_move": 8000,
                 "ins_xmove": 2000,
                 "sort_ok": 500,
+                "f_foreign_membership_reads": 100000,
+                "f_foreign:value:output-of-member-node": 8000,
+                "f_foreign:value:graph-input": 4000,
+                "f_foreign:value:graph-output": 3000,
+                "f_foreign:node:of-nested-subgraph": 1500,
             },
             "min_nontrivial": 2000,
             "params": {"enumerate": False, "max_len": 60},
@@ -513,6 +550,11 @@ def plan(tier: str) -> dict:
             "ins_move": 50000,
             "ins_xmove": 25000,
             "sort_ok": 6000,
+            "f_foreign_membership_reads": 500000,
+            "f_foreign:value:output-of-member-node": 40000,
+            "f_foreign:value:graph-input": 20000,
+            "f_foreign:value:graph-output": 15000,
+            "f_foreign:node:of-nested-subgraph": 7000,
             "enum_histories": 500000,
             "enum:l2_compared": 2500000,
         },
